@@ -777,6 +777,39 @@ def generate(repo=None):
                             % ', '.join(n for n, g in zip(('signed=s', 'n_word=w', 'n_frac=f', 'n_int=i'), given) if g))
             attempt('resizeSizes_%d%d%d%d' % ((pat >> 3) & 1, (pat >> 2) & 1, (pat >> 1) & 1, pat & 1), fres)
 
+    # the constructor's size reconciliation (_init_size) when word and fraction are both determined by the arguments:
+    # the (signed, n_word, n_frac) it hands to resize()
+    if meth:
+        for sgiven in (0, 1):
+            for wfi in ((1, 1, 0), (1, 0, 1), (0, 1, 1), (1, 1, 1)):
+                def finit(sgiven=sgiven, wfi=wfi):
+                    node = meth.get('_init_size')
+                    if node is None:
+                        raise Untranslatable('Fxp._init_size not found')
+                    calls = [c for c in ast.walk(node) if isinstance(c, ast.Call) and isinstance(c.func, ast.Attribute) and c.func.attr == 'resize'
+                             and isinstance(c.func.value, ast.Name) and c.func.value.id == 'self']
+                    if len(calls) != 1 or len(calls[0].args) < 3 or calls[0].keywords:
+                        raise Untranslatable('the resize call of _init_size was not recognised')
+                    # the body up to the statement that contains the call, then "return (its first three arguments)"
+                    idx = next(k for k, st in enumerate(node.body) if any(c is calls[0] for c in ast.walk(st)))
+                    last = node.body[idx]
+                    if not (isinstance(last, ast.If) and any(c is calls[0] for st in last.orelse for c in ast.walk(st))):
+                        raise Untranslatable('the resize call is not the else-branch of the final test')
+                    ret = ast.Return(value=ast.Tuple(elts=list(calls[0].args[:3]), ctx=ast.Load())); ret._synthetic = True; ret.lineno = 0
+                    guard = ast.If(test=last.test, body=[ast.Raise(exc=None, cause=None)], orelse=[ret]); guard.lineno = last.lineno
+                    env = {'self': ('O', 'x'), 'val': C(None), 'raw': C(False),
+                           'signed': ('B', 's') if sgiven else C(None), 'n_word': ('I', 'w') if wfi[0] else C(None),
+                           'n_frac': ('I', 'f') if wfi[1] else C(None), 'n_int': ('I', 'i') if wfi[2] else C(None)}
+                    pe = PE(env, consts, funcs)
+                    r = pe.run(list(node.body[:idx]) + [guard], lenient=True)
+                    if r is None or r[0] != 'T':
+                        raise Untranslatable('no sizes')
+                    name = 'initSizes_%d%d%d%d' % ((sgiven,) + wfi)
+                    return emit(name, '(s : Bool) (w f i : Int)', pe, r,
+                                '`(self.signed, n_word, n_frac)` that `_init_size(%s)` hands to `resize`'
+                                % ', '.join(n for n, g in zip(('signed=s', 'n_word=w', 'n_frac=f', 'n_int=i'), (sgiven,) + wfi) if g))
+                attempt('initSizes_%d%d%d%d' % ((sgiven,) + wfi), finit)
+
     # ------------------------------------------------------------------------------------------ Config setters
     def fvalid(key):
         def f():
